@@ -383,7 +383,7 @@ def step(hist):
 # exploration
 # ---------------------------------------------------------------------------------------------------
 VARIANTS = {
-    False: [('ok', 'own'), ('+1', 'own'), ('x', 'own'), ('ok', 'other'), ('+1', 'other'), ('x', 'other')],
+    False: [('ok', 'own'), ('+1', 'own'), ('x', 'own'), ('ok', 'other'), ('x', 'other'), ('bare', 'own')],
     True: [('ok', 'own'), ('+1', 'own'), ('0', 'own'), ('x', 'own'), ('empty', 'own'), ('ok', 'other'), ('+1', 'other'), ('x', 'other'),
            ('bare', 'own')],
 }
@@ -500,7 +500,7 @@ def run(R):
         'delimiters(seg,ele,sub,rep)': [list(d) for d in DELIMS], 'eol': ['\n', ''], 'versions': ['00401', '00501'],
         'events': 'Write of ISA/GS/ST (fresh control numbers), body REF (composite), body DTP (interior empty element), HL root/child/mis-numbered, '
                   'SE/GE/IEA x supplied count %s x id {own,other}%s; Close() checked after every state'
-                  % ('{true,true+1,0,x,empty}' if R.thorough else '{true,true+1,x}', ' plus bare trailer' if R.thorough else ''),
+                  % ('{true,true+1,0,x,empty}' if R.thorough else '{true,true+1,x}', ' plus bare trailer'),
         'regular_documents': {'shards': len(shards), 'shape': 'interchanges 1-2 x groups 1-3 x sets 1-3 x bodies, trailer policy {supplied ok, supplied wrong, omitted}^3, every prefix'},
     }
     R.assumptions = [
